@@ -283,6 +283,7 @@ def run(res, tier, seed, search=False, have_drv=True):
                                                   "verdict.txt": v + "\n"})
                     res.violations.append(("C10 on the real executor: %s   [%s]" % (v, " | ".join(c[1:-1])[:600]), os.path.join(d, "case.sched")))
                     break
+    stream_cases(res, tier, have_drv)
     res.cov["distinct_nontrivial"] = len(nontrivial)
     res.cov["traces_validated_against_impl"] = len(cases) if model is not None else 0
     res.cov["batch_limit_case"] = "1025 runnables queued before one dispatch: last delivered=" + (impl[2][-2][:60] if len(impl) > 2 else "?")
@@ -291,7 +292,59 @@ def run(res, tier, seed, search=False, have_drv=True):
         res.broken = []
 
 
+def exec_cb_queries(lines, have_drv=True):
+    text = "\n".join(lines) + "\n"
+    rc, impl, err = C.run_vh("execcb", text, timeout=600)
+    if rc != 0:
+        raise RuntimeError("vh execcb failed: " + err[-300:])
+    model = None
+    if have_drv:
+        rc, model, err = C.run_drv("execcb", text, timeout=600)
+        if rc != 0:
+            raise RuntimeError("drv execcb failed: " + err[-300:])
+        model = model.splitlines()
+    return impl.splitlines(), model
+
+
+def spec_stream(q, a):
+    """C10's StreamSource clause on the implementation's answer"""
+    n = int(q.split()[1])
+    kv = dict(x.split("=") for x in a.split()[2:])
+    if int(kv["items"]) != n:
+        return "a StreamSource over a stream of %d ready items delivered %s of them although the loop kept dispatching" % (n, kv["items"])
+    if kv["inorder"] != "1":
+        return "the items of the stream were delivered out of order or twice"
+    if kv["nones"] != "1":
+        return "the end of the stream was delivered %s times (expected once)" % kv["nones"]
+    if kv["gone"] != "1":
+        return "the stream ended but the StreamSource is still in the loop"
+    return None
+
+
+def stream_cases(res, tier, have_drv):
+    sizes = [0, 1, 2, 7, 1023, 1024, 1025, 3000] + ([2048, 2049, 5000, 10000] if tier == "thorough" else [])
+    lines = ["stream %d %d" % (n, 5) for n in sizes]
+    impl, model = exec_cb_queries(lines, have_drv)
+    for i, (q, a) in enumerate(zip(lines, impl)):
+        v = spec_stream(q, a)
+        if v:
+            res.cov["impl_monitor_failures"] += 1
+            if len(res.violations) < 3:
+                d = C.write_replay(res.pid, {"case.execcb": q + "\n", "impl.obs": a + "\n", "verdict.txt": v + "\n"})
+                res.violations.append(("C10 on a real StreamSource: %s   [%s]" % (v, q), os.path.join(d, "case.execcb")))
+        elif model is not None and model[i] != a and not res.broken:
+            res.broken.append("correspondence (StreamSource): `%s`: impl `%s` vs model `%s`" % (q, a, model[i]))
+    res.cov["stream_cases"] = len(lines)
+    res.cov["evaluations"] = res.cov.get("evaluations", 0) + len(lines)
+
+
 def replay(path):
+    if path.endswith(".execcb"):
+        q = open(path).read().strip()
+        impl, _ = exec_cb_queries([q], False)
+        v = spec_stream(q, impl[0]) if q.startswith("stream") else None
+        print(impl[0]); print("verdict:", v)
+        return 1 if v else 0
     case = [l.rstrip("\n") for l in open(path) if l.strip()]
     impl, model = run_all([case])
     v = spec_c10(case, impl[0])
